@@ -65,6 +65,11 @@ pub fn canon<T: TreeView>(t: &T, root: &T::H, o: CanonOpts) -> String {
     // stack of (node, depth, is_template_contents)
     let mut stack: Vec<(T::H, usize, bool)> = vec![(root.clone(), 0, false)];
     while let Some((h, d, is_tc)) = stack.pop() {
+        if out.len() > (64 << 20) {
+            // a finite tree this large does not occur in generated cases: cycle
+            out.push_str("TRUNCATED: dump exceeds 64 MiB (cycle in the tree?)\n");
+            break;
+        }
         let kind = t.kind(&h);
         use std::fmt::Write;
         if is_tc {
